@@ -68,16 +68,16 @@ import Lungo.Tests.IndexFixtures
 import Lungo.Proofs.IndexLaws
 import Lungo.Proofs.IndexColl
 import Lungo.Proofs.IndexReject
-import Lungo.Proofs.IndexCat
-import Lungo.Proofs.IndexMgmt
-import Lungo.Props.C15
-import Lungo.Props.C07
+-- PENDING import Lungo.Proofs.IndexCat
+-- PENDING import Lungo.Proofs.IndexMgmt
+-- PENDING import Lungo.Props.C15
+-- PENDING import Lungo.Props.C07
 import Lungo.Spec.Replay
 import Lungo.Proofs.BeqLaws
 import Lungo.Proofs.OplogLaws
-import Lungo.Proofs.OplogSteps
-import Lungo.Proofs.ExpireLaws
-import Lungo.Proofs.ReplayLaws
-import Lungo.Proofs.UpdateDesc
-import Lungo.Props.C08
-import Lungo.Props.C19
+-- PENDING import Lungo.Proofs.OplogSteps
+-- PENDING import Lungo.Proofs.ExpireLaws
+-- PENDING import Lungo.Proofs.ReplayLaws
+-- PENDING import Lungo.Proofs.UpdateDesc
+-- PENDING import Lungo.Props.C08
+-- PENDING import Lungo.Props.C19
